@@ -1400,10 +1400,7 @@ impl Writer {
       let acked_by_all_readers = self
         .readers
         .values()
-        // Proxies of built-in readers carry no QoS, but they do acknowledge.
-        .filter(|rp| {
-          rp.qos().is_reliable() || rp.acked_up_to_before() > SequenceNumber::zero()
-        })
+        .filter(|rp| rp.qos().is_reliable())
         .map(RtpsReaderProxy::acked_up_to_before)
         .min()
         .map_or(all_written, |acked| min(acked, all_written));
